@@ -116,4 +116,6 @@ def run(ctx):
     rep.floor('R03.1', 'guarded Ok paths', n_guard, ns)
     rep.floor('R03.2', 'released keys', n_released, ns)
     rep.floor('R03.3', 'state fields', n_state, 3 * ns)
+    from rules import profile
+    profile.check(ctx, rep, 'R03.P', ['slog_finish', 'slog_start'])
     return rep
